@@ -12,6 +12,7 @@
 import ChumskyModel.Model.Spec
 import ChumskyModel.Model.Text
 import ChumskyModel.Model.Pratt
+import ChumskyModel.Model.Drops
 open Chumsky
 
 abbrev P := StateT (List String) (Except String)
@@ -69,6 +70,7 @@ def mapFnP : P MapFn := do
   | "fst" => pure .fst
   | "snd" => pure .snd
   | "dup" => pure .dup
+  | "track" => pure (.tag 99)       -- C19: the harness creates a drop-tracked marker here; the model only needs the shape
   | t => throw s!"bad mapfn {t}"
 
 def foldFnP : P FoldFn := do
@@ -442,6 +444,38 @@ def runText (cc : Text.CC) (pname : String) (params : List Nat) (toks : List Nat
       | some (s, e, en) => s!"ok {s} {e} {en}" | none => "none")
   | other => s!"ERR unknown-parser-{other}"
 
+/-! ### drop ledger (C19):  DR <id> <ce|ga|tk> <N> <boxed> <parse|check> <lo> <hi|-> I <inputspec> -/
+
+def dropCase : P (String × String × Nat × Bool × String × Nat × Option Nat × List (List Nat)) := do
+  let id ← tok
+  let fam ← tok
+  let n ← nat
+  let boxed ← boolP
+  let mode ← tok
+  let lo ← nat
+  let hi ← optNat
+  let i ← tok
+  if i != "I" then throw "expected I"
+  let inputs ← inputsP
+  pure (id, fam, n, boxed, mode, lo, hi, inputs)
+
+/-- how many leading `a` (97) the input has: the item parser `just('a').map(track)` succeeds exactly that often -/
+def leadingA : List Nat → Nat
+  | 97 :: ts => leadingA ts + 1
+  | _ => 0
+
+def runDrop (fam : String) (n : Nat) (boxed : Bool) (mode : String) (hi : Option Nat) (toks : List Nat) : String :=
+  let c := leadingA toks
+  let m := match hi with | some h => min c h | none => c
+  let next : Nat → Drops.Next := fun i => if i < m then .item i else .stop
+  if mode == "check" then
+    -- no value is built in check mode: the mappers do not run, the ledger is never touched
+    s!"created=0 dropped=0 returned=0 ok={if Drops.complete next n 0 then 1 else 0}"
+  else
+    let r := if fam == "ga" then Drops.groupArr n next else Drops.collectExactly n boxed next
+    let created := (Drops.created next n 0).length
+    s!"created={created} dropped={r.1.drops.length} returned={r.1.out.length} ok={if r.2 then 1 else 0}"
+
 partial def loop (inp out : IO.FS.Stream) : IO Unit := do
   let line ← inp.getLine
   if line.isEmpty then return ()
@@ -455,6 +489,16 @@ partial def loop (inp out : IO.FS.Stream) : IO Unit := do
         let env := mkEnv c ts
         out.putStrLn s!"{c.id}.{k} M {renderTop (parseTopPratt c.fuel env c.mode atom ops)}"
         out.putStrLn s!"{c.id}.{k} S {renderSpec (pegTopPratt c.fuel env atom ops)}"
+        k := k + 1
+    | .error e => out.putStrLn s!"ERR {e} :: {line.trimAscii.toString}"
+    loop inp out
+  else if toks.head? == some "DR" then
+    match (dropCase.run toks.tail) with
+    | .ok ((id, fam, n, boxed, mode, _lo, hi, inputs), _) =>
+      let mut k := 0
+      for ts in inputs do
+        if fam == "tk" then out.putStrLn s!"{id}.{k} M -"
+        else out.putStrLn s!"{id}.{k} M {runDrop fam n boxed mode hi ts}"
         k := k + 1
     | .error e => out.putStrLn s!"ERR {e} :: {line.trimAscii.toString}"
     loop inp out
